@@ -954,12 +954,14 @@ func init() {
 			{Name: "AUX-TYPED-VIEW", What: "aux text formatting prints only the tag, the type letters and the typed Value(), never raw payload bytes", Floor: 2, Run: ruleAuxTypedView},
 			{Name: "AUX-EMPTY", What: "sam.ParseAux lets a five-byte field (an empty value) through to the Z and H cases: the guards on the way demand no more (added for a defect of the unchanged tree, repaired 6d77b09)", Floor: 1, Run: ruleAuxEmpty},
 			{Name: "PATH-AUXALL", What: "bam.buildAux serialises every aux field of the record, the empty-valued ones too: a field that is left out is missing from the SAM line of the record read back (shared with C05; under C06 since ninth-round seed C06-j)", Floor: 1, Run: ruleAuxAll},
+			{Name: "SCAN-LIMIT", What: "no parser of package sam reads lines through a bufio.Scanner with the default 64 KiB token limit: a header line may be longer (shared with C07; here since thirteenth-round seed C05-n)", Floor: 0, Run: ruleScanLimit([]string{"sam"})},
 			{Name: "HEX-TEXT", What: "an H field holds hexadecimal text: NewAux hex-encodes a Hex value, Aux.Value decodes, the formatters print the text without a hexadecimal verb (shared with C05; added for a defect of the unchanged tree, repaired 38d8749)", Floor: 4, Run: ruleHexText},
 			{Name: "TAB-AUXTEXT", What: "ParseAux's type letters = the formatter's kinds; array subtypes and their widths/signedness = the specification's; CIGAR letters agree between format and parse tables", Floor: 10, Run: ruleTabAuxText},
 			{Name: "LINE-READER", What: "sam.Reader.Read: owned line buffer, read-error/last-line classification over all cases, newline and CR cuts under the right guards", Floor: 3, Run: ruleLineReader, Canary: ruleLineReaderCanary, WantFail: []string{"bufc.(*Lines).Next#own-line"}, WantPassMin: 1},
 			{Name: "HEADER-LAST-LINE", What: "sam.NewReader compares an error from the header loop's ReadBytes with io.EOF before it gives up: the last header line of an input without records may lack the newline (added for a defect of the unchanged tree)", Floor: 1, Run: ruleHeaderLastLine},
 			{Name: "TAB-CONSUME", What: "CIGAR consumption table and op letters equal the SAM specification's", Floor: 10, Run: ruleTabConsume},
 			{Name: "CIGAR-SPLIT", What: "sam.ParseCigar, splitting a length above 2^28−1: what is left after a piece was taken off is shown positive before an operation is made from it – no zero-length operation is invented, so the CIGAR column reads back as it was written (shared with C16; added after seventh-round seeds C06-h, C16-h)", Floor: 2, Run: ruleCigarSplit},
+			{Name: "SEQ-ABSENT", What: "Cigar.IsValid(Seq.Length) is asked only where the sequence is present: a record with a CIGAR and SEQ \"*\" parses and formats (added after thirteenth-round seed C06-n)", Floor: 1, Run: ruleSeqAbsent},
 			{Name: "CIGAR-EVERY-OP", What: "ParseCigar makes at least one operation for every operation of the text, one of length 0 included (added after eleventh-round seed C06-l)", Floor: 1, Run: ruleCigarEveryOp},
 			{Name: "PARSE-WIDTH", What: "every strconv.ParseInt/ParseUint in package sam is given the bit size of the type its result is converted to (flags 16, mapping quality 8, the aux integer types): a smaller size refuses values the formatter prints (shared with C19; added after seventh-round seed C19-g)", Floor: 8, Run: ruleParseWidth([]string{"sam"}, 8)},
 			{Name: "PATH-SHARED", What: "a BAM record buffer whose data aliases memory the Reader will reuse is marked shared, so that the record's fields are copies: a record held across the next Read keeps its SAM line (shared with C05; under C06 since seventh-round seed C06-g)", Floor: 1, Run: ruleBufShared},
